@@ -53,7 +53,7 @@ fn set_states(s: &St, m: &Mods) -> Option<Vec<St>> {
     };
     let stresses: Vec<u8> = match (m.stress, m.sec) {
         (None, None) => vec![s.stress],
-        (Some(true), None) => if s.stress == 0 { vec![1] } else { vec![1, s.stress] },        // `[+stress]` alone gives primary; an already stressed syllable may stay as it is
+        (Some(true), None) => vec![1],        // "`[+stress]` alone gives primary stress" (also on a syllable that carries secondary stress)
         (Some(false), None) => vec![0],
         (None, Some(true)) => vec![2],
         (None, Some(false)) => if s.stress == 2 { vec![0, 1] } else { vec![s.stress] },        // the manual leaves the choice open for a secondary-stressed syllable
@@ -96,7 +96,7 @@ impl Property for C05 {
     fn rule(&self) -> String {
         "Exhaustive: 36 states of a target vowel/syllable (length 1-3 × unstressed/primary/secondary × tone 0/5/51/1234) × 405 modifier combinations ({absent,+,-} over long, overlong, stress, sec.stress × tone absent or one of four values) \
          × 12 element kinds (input modifier on IPA `a:[M]`, group `V:[+low,M]`, matrix `[+syll,M]`, syllable `%:[M]`; output matrix on a segment `a > [M]`, `[+syll] > [M]` and, together with a feature change, `a > [+nasal,M]` (every copy must be changed); output matrix on `%`; the same modifiers on an element of the environment: `_%:[M]`, `%:[M]_`, `_a:[M]`, `[+syll,+low,M]_`, with the neighbouring segment as focus) × target first/middle/last in its syllable (word `ti.<syll>.ku`). \
-         Match outcome (marker `[+nasal]` resp. `[tone:7]`) and resulting state are compared with a table model typed from the manual; where the manual leaves a choice (`[-sec.stress]` on a secondary-stressed syllable, `[+stress]` on an already stressed one) every documented-consistent result is accepted; \
+         Match outcome (marker `[+nasal]` resp. `[tone:7]`) and resulting state are compared with a table model typed from the manual; where the manual leaves a choice (`[-sec.stress]` on a secondary-stressed syllable) every documented-consistent result is accepted; \
          contradictory combinations must be errors in outputs and must be errors or never match in inputs; length on `%` must be rejected. One case = (state, kind, position) = 405 cells. Non-trivial: the model predicts a state change or a failed match for some cell. Both tiers enumerate the whole space.".into()
     }
     fn exhaustive(&self, _t: Tier) -> bool { true }
